@@ -314,3 +314,50 @@ func dtPkgTwoRows(f refdata.Field, data1, data2 []byte) (got1, got2 interface{},
 	})
 	return
 }
+
+// dtPkgTwoCols: reference ROWFMT2 with two columns + one ROW -> library
+// readers; both values are taken after the whole row was decoded.
+func dtPkgTwoCols(f1, f2 refdata.Field, data1, data2 []byte) (got1, got2 interface{}, stage string, err error, pi *rt.PanicInfo) {
+	f1.Name, f2.Name = "c1", "c2"
+	enc, e := refdata.RowFmt2([]refdata.Field{f1, f2})
+	if e != nil {
+		return nil, nil, "harness", e, nil
+	}
+	fp, e, p := dtLibParseFmt(enc)
+	if e != nil || p != nil {
+		return nil, nil, "parse-rowfmt", e, p
+	}
+	df1, e1 := refdata.DataField(f1, data1, nil)
+	df2, e2 := refdata.DataField(f2, data2, nil)
+	if e1 != nil || e2 != nil {
+		return nil, nil, "harness", fmt.Errorf("%v / %v", e1, e2), nil
+	}
+	stage = "read-row"
+	pi = rt.Catch(func() {
+		row := refdata.Row(df1, df2)
+		var pkg tds.Package
+		pkg, err = tds.LookupPackage(tds.Token(row[0]))
+		if err != nil {
+			return
+		}
+		rp, ok := pkg.(*tds.RowPackage)
+		if !ok {
+			err = fmt.Errorf("LookupPackage(TDS_ROW) gave %T", pkg)
+			return
+		}
+		if err = rp.LastPkg(fp); err != nil {
+			return
+		}
+		ch := &dtFlatCh{buf: row, pos: 1}
+		if err = rp.ReadFrom(ch); err != nil {
+			return
+		}
+		if ch.pos != len(row) || len(rp.DataFields) != 2 {
+			err = fmt.Errorf("ROW reader consumed %d of %d bytes, %d data fields", ch.pos, len(row), len(rp.DataFields))
+			return
+		}
+		got1, got2 = rp.DataFields[0].Value(), rp.DataFields[1].Value()
+		stage = ""
+	})
+	return
+}
